@@ -101,6 +101,15 @@ def instStepRest (st : St) (two : Bool) (args : List String) : St × String :=
     (st, Led.joinSorted (l.vol.expired.map (fun e =>
       pad8 e.1 ++ "=" ++ "+".intercalate (e.2.mergeSort (fun a b => a ≤ b)))))
   | ["mempool"] => (st, Led.joinSorted l.vol.mempool)
+  | ["stalepend"] =>
+    -- pending transactions one of whose inputs the node's chain spends by another transaction;
+    -- spec: none (a restored wallet must not keep what the chain has made impossible)
+    let chainTxs := l.node.chain.flatMap (·.txs)
+    let stale := l.store.pending.filter (fun e =>
+      e.2.ins.any (fun i => chainTxs.any (fun t => !t.cb && t.id != e.1 && t.ins.any (fun j => j.tx == i.tx && j.idx == i.idx))))
+    -- (while a wallet is still importing its rolled-back transactions legitimately wait in the pending set)
+    if l.store.status.all (fun e => e.2.synced.isNone) then (st, Led.joinSorted (stale.map (·.1)) ++ "\t-")
+    else (st, Led.joinSorted (stale.map (·.1)))
   | "addr" :: w :: a :: _ =>
     let (l', o) := Led.step l args
     let st := setI st two { i with led := l' }
@@ -211,6 +220,17 @@ def instStep (st : St) (two : Bool) (args : List String) : St × String :=
       (setI st two { i with led := { l with store := s', vol := v' } }, if fin then "fin" else "more")
   | _ => instStepRest st two args
 
+/-- `impsteps W N`: N times `impstep W`, silently -/
+def instStepN (st : St) (two : Bool) (args : List String) : St × String :=
+  match args with
+  | ["impsteps", w, ns] =>
+    match ns.toNat? with
+    | none => (st, "bad-op")
+    | some n =>
+      if (AMap.get st.known w).isNone then (st, "bad-op") else
+      ((List.range n).foldl (fun st _ => (instStep st two ["impstep", w]).1) st, "ok")
+  | _ => instStep st two args
+
 def nodeOps : List String := ["tx", "block", "submit", "detach", "params", "fill", "twin"]
 
 /-- `fill K TAG M`: K empty blocks on the tip, notified to instance 1 (M&1) and instance 2 (M&2) -/
@@ -254,6 +274,6 @@ def route (h : St → Bool → List String → St × String) (st : St) (args : L
     | _, _ => (st, "bad-op")
   | _ => h st false args
 
-def step (st : St) (args : List String) : St × String := route instStep st args
+def step (st : St) (args : List String) : St × String := route instStepN st args
 
 end MW.Drv.Imp
